@@ -114,9 +114,9 @@ theorem parse_lossless (ko : KeyOps) (sha : Bytes → Bytes) (b : Bytes) (p : Ps
               split at h
               · simp at h
               · rename_i gs hpu
-                split at h
-                · rename_i nin nout hnin hnout
-                  split at h
+                generalize hnin : gs.nin.getD 0 = nin at h
+                generalize hnout : gs.nout.getD 0 = nout at h
+                · split at h
                   · simp at h
                   · rename_i ins' r2 hins
                     split at h
@@ -293,7 +293,6 @@ theorem parse_lossless (ko : KeyOps) (sha : Bytes → Bytes) (b : Bytes) (p : Ps
                           · exact ⟨t, hrec t ht, hs⟩
                           · simp at e
                           · simp at e
-                · simp at h
 
 /-- wrong magic bytes are refused -/
 theorem bad_magic_rejected (ko : KeyOps) (sha : Bytes → Bytes) (c : Nat) (b : Bytes) (h : b.take 5 ≠ psbtMagic) :
